@@ -94,6 +94,26 @@ def check_send_message(ctx, model, spec):
         scs.append({"D": 200, "me": ("a", "123", None)[i % 3], "has_cb": False, "cancel": None, "params": None,
                     "arrivals": [(3, ("res", ("str", "zz-other"), 1)), (5, ("err", ("me",), c, datas[i % len(datas)])),
                                  (9, ("res", ("me",), 2))]})
+    # the same under DEBUG logging (code that only runs when the application has logging turned up), and with an error object
+    # that lacks its message member
+    extra = []
+    for i, sc in enumerate(scs[::max(1, len(scs) // 150)]):
+        for nomsg in (False, True):
+            e = dict(sc)
+            e["debug_log"] = True
+            if nomsg:
+                arr = list(e["arrivals"])
+                t, m = arr[1]
+                arr[1] = (t, (m[0], m[1], m[2], m[3], "no-message"))
+                e["arrivals"] = arr
+            extra.append(e)
+        q = dict(sc)
+        arr = list(q["arrivals"])
+        t, m = arr[1]
+        arr[1] = (t, (m[0], m[1], m[2], m[3], "no-message"))
+        q["arrivals"] = arr
+        extra.append(q)
+    scs += extra
     runs = A.check_scenarios(ctx, scs, model, spec, {"c01"})
     reqs = []
     for sc, obs in runs:
@@ -107,6 +127,8 @@ def check_send_message(ctx, model, spec):
         ok = next(it)
         ctx.spec_total += 1
         ctx.count("send_message-error:" + ("data" if sc["arrivals"][1][1][3] is not None else "no-data"))
+        ctx.count("logging:" + ("DEBUG" if sc.get("debug_log") else "off"))
+        ctx.count("error-object:" + ("without-message" if len(sc["arrivals"][1][1]) > 4 else "complete"))
         if not ok:
             klass = "error-returned-normally" if obs["out"][0] == "ret" else \
                     "error-raised-with-wrong-class-or-code" if obs["out"][0] == "err" else "error-response-ignored"
